@@ -24,7 +24,8 @@ PROPS = ["C01", "C02", "C03", "C04", "C05", "C09", "C11", "C12", "C13", "C14"]
 PREDS = {
     "C01": {"Inv_ExclDisjoint", "Inv_ExclNotInOthersTold", "Inv_ExclNotInPoolShared", "Inv_ToldWithinAllowed",
             "Inv_ReservedOnlyReservedClass"},
-    "C03": {"Inv_SharedCapacity", "Inv_ReservedCapacity", "Inv_IsolatedAllOrNone", "Inv_NonEmptyCpuset",
+    "C03": {"Inv_SharedCapacity", "Inv_ReservedCapacity", "Inv_IsolatedAllOrNone", "Inv_SharedHasNoIsolated", "Inv_IsolatedOnlyByGrant",
+            "Inv_NonEmptyCpuset",
             "Inv_GrantMatchesEligibility", "Inv_SharesEncoding", "Inv_LiveHoldsGrant"},
     "C02": {"Inv_BalloonsDisjoint", "Inv_BalloonsWithinAllowed", "Inv_FreeCpusAreUnowned", "Inv_OneBalloonPerCtr",
             "Inv_SharedIdleNotOwned", "Inv_MinMaxCpus", "Inv_MinMaxInstances", "Inv_NonEmptyHasCpus", "Inv_ToldIsCpusPlusShared",
